@@ -51,6 +51,12 @@ SPEC = {
         "built-in modes, in registration order for the order-sensitive custom callable)",
         "integer-valued connection outputs and float64 tensors so that sum/mean/prod/min/max and transforms are exact; "
         "mean inputs are multiples of 12 so the mean is integral",
+        "tensors are immutable values in the Lean model: a transform named `x_` is the same function of values as `x`. Sharing of "
+        "tensor OBJECTS between consumers (an in-place user transform on a tensor the layer hands to several places) is covered by "
+        "the harness only: real in-place transforms (Tensor.mul_/add_/clamp_/neg_) are generated on the Serial transform, on Biclique "
+        "post-input and pre-output transforms (per connection / per group, >= 2 groups, every combine mode) and on the three "
+        "RecurrentSerial out-transforms, and judged against the specification evaluated on fresh values; the RecurrentSerial "
+        "in-transforms act on spike tensors (bool) and are generated out-of-place only",
         "device CPU",
     ],
 }
@@ -90,9 +96,34 @@ TRANS = {
 }
 
 
+INPLACE = {
+    "neg_": lambda x: x.neg_(),
+    "relu_": lambda x: x.clamp_(min=0),
+    "clamp01_": lambda x: x.clamp_(0, 1),
+}
+TRANS["clamp01"] = lambda x: x.to(DT).clamp(0, 1)
+
+
+def is_inplace(name):
+    return name.endswith("_")
+
+
+def pure_name(name):
+    return name[:-1] if is_inplace(name) else name
+
+
 def trans_py(name):
+    """the callable handed to the real layer; names ending in `_` mutate their argument in place and return it"""
     if name in TRANS:
         return TRANS[name]
+    if name in INPLACE:
+        return INPLACE[name]
+    if name.startswith("scale") and is_inplace(name):
+        k = int(name[5:-1])
+        return lambda x, k=k: x.mul_(k)
+    if name.startswith("add") and is_inplace(name):
+        c = int(name[3:-1])
+        return lambda x, c=c: x.add_(c)
     if name.startswith("scale"):
         k = int(name[5:])
         return lambda x, k=k: k * x.to(DT)
@@ -229,9 +260,13 @@ def record_run(sc):
     for k in cn:
         lines.append(f"peek c:{k} 1:0")
 
+    last_out = {}
+
     def hook(key):
         def fn(module, args, output):
             tapes.setdefault(key, []).append(f"tape {key} call {tens_s(args)} {ten_s(output)}")
+            if key.startswith("c:"):
+                last_out[key[2:]] = output.detach().clone()
         return fn
 
     def wrap_clear(key, m, is_neuron):
@@ -277,8 +312,9 @@ def record_run(sc):
             outs.append(None)
             raised = True
             continue
+        res = clone_res(res)
         outs.append(res)
-        views.append(step_view(sc, res, neurs, nn, cn))
+        views.append(step_view(sc, res, neurs, nn, cn, hooked=(dict(last_out) if mutates_conn_outputs(sc) else None)))
     ops.append("end")
     views.append(("consistent", "consistent") if not raised else ("consistent", "consistent"))
     for key in ["c:" + k for k in cn] + ["n:" + k for k in nn]:
@@ -287,9 +323,39 @@ def record_run(sc):
     return lines + ops, [("ok", "ok")] * nhead + views, outs
 
 
-def step_view(sc, res, neurs, nn, cn):
+def mutates_conn_outputs(sc):
+    """an in-place transform applied directly to a connection's output tensor: the intermediate dictionary the layer
+    returns then shows the user's mutation, so the connection outputs are taken from the forward hooks instead"""
+    if sc["kind"] == "serial":
+        return is_inplace(sc["trans"])
+    if sc["kind"] == "biclique":
+        return any(is_inplace(c["post"]) for c in sc["conns"])
+    return any(is_inplace(t) for t in sc["rtrans"][:3])
+
+
+def has_inplace(sc):
+    if sc["kind"] == "biclique":
+        return mutates_conn_outputs(sc) or any(is_inplace(n["pre"]) for n in sc["neurons"])
+    return mutates_conn_outputs(sc)
+
+
+def clone_res(res):
+    if isinstance(res, torch.Tensor):
+        return res.detach().clone()
+    if isinstance(res, dict):
+        return {k: clone_res(v) for k, v in res.items()}
+    if isinstance(res, (tuple, list)):
+        return tuple(clone_res(v) for v in res)
+    return res
+
+
+def step_view(sc, res, neurs, nn, cn, hooked=None):
     """canonical text of one layer call: M = outputs + intermediates, S = same + shape claim"""
     flag = ""
+    if hooked is not None and sc["kind"] == "serial":
+        res = (res[0], hooked["serial"])
+    if hooked is not None and sc["kind"] == "biclique":
+        res = (res[0], {k: hooked[k] for k in res[1]})
     if sc["kind"] == "serial":
         (o, y) = res
         m = f"out={ten_s(o)} mid={ten_s(y)}"
@@ -312,8 +378,15 @@ def step_view(sc, res, neurs, nn, cn):
 # ---------------------------------------------------------------------------------------------
 # (b) manual composition with a twin set of components
 
+def fresh_trans(name):
+    """the VALUE of a transform, computed on a fresh copy (what the specification means by transform(x))"""
+    f = trans_py(tname(name))
+    return (lambda x: f(x.clone())) if is_inplace(name) else f
+
+
 def manual_run(sc):
-    """components of an identically built twin, called by hand in the documented order"""
+    """components of an identically built twin, called by hand in the documented order; every transform is
+    evaluated on a fresh copy of its argument, every neuron group gets its own freshly combined tensor"""
     _layer, conns, neurs = build(sc)
     outs = []
     fb = None
@@ -331,23 +404,23 @@ def manual_run(sc):
             continue
         x = layer_inputs(sc, ev)
         if sc["kind"] == "serial":
-            t = trans_py(tname(sc["trans"]))
+            t = fresh_trans(sc["trans"])
             y = conns[0](*x)
             outs.append((neurs[0](t(y)), y))
         elif sc["kind"] == "biclique":
             ys = {}
             for k, v in x.items():
                 ys[k] = conns[[c["name"] for c in sc["conns"]].index(k)](*v)
-            tr = {k: trans_py(tname(next(c["post"] for c in sc["conns"] if c["name"] == k)))(v) for k, v in ys.items()}
+            tr = {k: fresh_trans(next(c["post"] for c in sc["conns"] if c["name"] == k))(v) for k, v in ys.items()}
             st = torch.stack(list(tr.values()), 0)
             mode = sc["combine"]
             z = {"sum": lambda: st.sum(0), "mean": lambda: st.mean(0), "prod": lambda: st.prod(0),
                  "min": lambda: st.min(0).values, "max": lambda: st.max(0).values,
                  "custom": lambda: custom_combine(tr)}[mode]()
-            od = {n["name"]: m(trans_py(tname(n["pre"]))(z)) for n, m in zip(sc["neurons"], neurs)}
+            od = {n["name"]: m(fresh_trans(n["pre"])(z)) for n, m in zip(sc["neurons"], neurs)}
             outs.append((od, ys))
         else:
-            t = [trans_py(tname(a)) for a in sc["rtrans"]]
+            t = [fresh_trans(a) for a in sc["rtrans"]]
             if fb is None:
                 fb = torch.zeros_like(neurs[1].spike)
             a = conns[0](*x)
@@ -537,13 +610,24 @@ def gen_scenario(rng, kind=None, T=None):
     B = rng.randint(1, 3)
     dt = rng.choice([0.5, 1.0, 2.0])
     sc = {"kind": kind, "B": B, "dt": dt, "mult": 1}
-    tr = ["none", "id", "neg", "relu", "scale2", "scale-3", "add12", "add-24"]
+    base = ["none", "id", "neg", "relu", "scale2", "scale-3", "add12", "add-24", "clamp01"]
+    inpl = ["neg_", "relu_", "scale2_", "scale-3_", "add12_", "add-24_", "clamp01_"]
+
+    class _Tr:
+        """transform names for tensors the layer owns (connection outputs, the combined input): out-of-place ones and,
+        about a third of the time, in-place ones (Tensor.mul_/add_/clamp_/neg_)"""
+        def pick(self, integral_mean=False):
+            pool = inpl if rng.random() < 0.35 else base
+            if integral_mean:
+                pool = [t for t in pool if not t.startswith("clamp01")]
+            return rng.choice(pool)
+    tr = _Tr()
     if kind == "serial":
         i, o = randshape(rng, 3, 3, 8), randshape(rng, 2, 3, 6)
         ct = conn_type_for(rng, i, o)
         sc["conns"] = [gen_conn(rng, "serial", ct, i, o)]
         sc["neurons"] = [gen_neuron(rng, "serial", sc["conns"][0]["out"])]
-        sc["trans"] = rng.choice(tr)
+        sc["trans"] = tr.pick()
     elif kind == "biclique":
         sc["combine"] = rng.choice(["sum", "mean", "prod", "min", "max", "custom"])
         sc["mult"] = 12 if sc["combine"] == "mean" else 1
@@ -553,14 +637,14 @@ def gen_scenario(rng, kind=None, T=None):
         for j in range(nc):
             i = randshape(rng, 2, 3, 6) if rng.random() < 0.7 else list(o)
             c = gen_conn(rng, f"c{j}", conn_type_for(rng, i, o), i, o, sc["mult"])
-            c["post"] = rng.choice(tr)
+            c["post"] = tr.pick(integral_mean=(sc["combine"] == "mean"))
             if sc["combine"] == "prod":
                 c["w"] = [max(-2, min(3, w)) for w in c["w"]]
             sc["conns"].append(c)
         sc["neurons"] = []
         for j in range(nnr):
             n = gen_neuron(rng, f"n{j}", o)
-            n["pre"] = rng.choice(tr)
+            n["pre"] = tr.pick()
             sc["neurons"].append(n)
     else:
         i, o = randshape(rng, 2, 3, 6), randshape(rng, 2, 3, 6)
@@ -569,7 +653,7 @@ def gen_scenario(rng, kind=None, T=None):
                        gen_conn(rng, "lateral", conn_type_for(rng, o, f), o, f),
                        gen_conn(rng, "feedback", conn_type_for(rng, f, o), f, o)]
         sc["neurons"] = [gen_neuron(rng, "feedfwd", o), gen_neuron(rng, "feedback", f)]
-        sc["rtrans"] = [rng.choice(tr), rng.choice(tr), rng.choice(tr), rng.choice(["none", "id", "inv"]),
+        sc["rtrans"] = [tr.pick(), tr.pick(), tr.pick(), rng.choice(["none", "id", "inv"]),
                         rng.choice(["none", "id", "inv"])]
         sc["trainable"] = (sc["conns"][1]["type"] != "dense" or True) and rng.random() < 0.3 and list(f) == list(o)
     sc["events"] = gen_events(rng, sc, T or rng.randint(3, 7))
@@ -593,6 +677,32 @@ def boundary_scenarios(rng):
             sc["B"] = B
             sc["events"] = gen_events(rng, sc, 3)
             out.append(sc)
+    # aliasing: an in-place pre-output transform on a NON-LAST neuron group, and an in-place post-input transform
+    # with >= 2 groups, for every combine mode (every group must still get pre_i(combine{post_j(y_j)}) of fresh values)
+    cyc = ["clamp01_", "scale2_", "add12_", "neg_", "relu_", "scale-3_"]
+    for j, mode in enumerate(("sum", "mean", "prod", "min", "max", "custom")):
+        for where in ("pre", "post"):
+            while True:
+                sc = gen_scenario(rng, "biclique", T=3)
+                if sc["combine"] == mode and len(sc["neurons"]) >= 2:
+                    break
+            for n in sc["neurons"]:
+                n["pre"] = "id"
+            for c in sc["conns"]:
+                c["post"] = "none"
+            if where == "pre":
+                sc["neurons"][0]["pre"] = cyc[j]
+                sc["neurons"][-1]["pre"] = "none"
+            else:
+                sc["conns"][0]["post"] = cyc[(j + 1) % 6] if mode != "mean" or not cyc[(j + 1) % 6].startswith("clamp") else "scale2_"
+            out.append(sc)
+    for kind in ("serial", "recurrent"):
+        sc = gen_scenario(rng, kind, T=3)
+        if kind == "serial":
+            sc["trans"] = "scale2_"
+        else:
+            sc["rtrans"][:3] = ["add12_", "clamp01_", "scale-3_"]
+        out.append(sc)
     # clear as the very first and the very last operation; clear twice
     sc = gen_scenario(rng, "recurrent", T=3)
     steps = [e for e in sc["events"] if e["op"] == "step"]
@@ -625,7 +735,10 @@ def check_manual(sc, outs):
     for ev in sc["events"]:
         if ev["op"] == "learn":
             continue
-        if ev["op"] == "step" and outs[k] is not None and not same(outs[k], mo[k]):
+        a, b_ = outs[k], mo[k]
+        if ev["op"] == "step" and a is not None and mutates_conn_outputs(sc):
+            a, b_ = a[0], b_[0]
+        if ev["op"] == "step" and a is not None and not same(a, b_):
             return (k, f"layer returns {show(outs[k])}, components called by hand in the documented order give {show(mo[k])}")
         k += 1
     return None
@@ -648,6 +761,41 @@ def shorten(sc, fails):
 def key_for(sc, what):
     extra = f":{sc['combine']}" if sc["kind"] == "biclique" else ""
     return f"C17:{sc['kind']}{extra}:{what}"
+
+
+def purified(sc, which):
+    """the same scenario with the in-place transforms of one family replaced by their out-of-place twins"""
+    c = copy.deepcopy(sc)
+    if c["kind"] == "biclique":
+        if which == "post":
+            for x in c["conns"]:
+                x["post"] = pure_name(x["post"])
+        else:
+            for x in c["neurons"]:
+                x["pre"] = pure_name(x["pre"])
+    elif c["kind"] == "serial":
+        c["trans"] = pure_name(c["trans"])
+    else:
+        c["rtrans"] = [pure_name(t) for t in c["rtrans"]]
+    return c
+
+
+def aliasing_class(sc, fails):
+    """if a wiring disagreement disappears once the in-place transforms of one family are made out-of-place,
+    the cause is tensor-object sharing inside the layer: name the family"""
+    if fails is None or not has_inplace(sc):
+        return None
+    try:
+        if sc["kind"] == "biclique":
+            if any(is_inplace(c["post"]) for c in sc["conns"]) and not fails(purified(sc, "post")):
+                return "inplace-post-reapplied"
+            if any(is_inplace(n["pre"]) for n in sc["neurons"]) and not fails(purified(sc, "pre")):
+                return "inplace-pre-aliased"
+        elif not fails(purified(sc, "all")):
+            return "inplace-transform-aliased"
+    except Exception:
+        return None
+    return None
 
 
 def run_scenarios(ctx, scenarios, ex, max_findings=6):
@@ -704,7 +852,17 @@ def run_scenarios(ctx, scenarios, ex, max_findings=6):
             if nf > max_findings:
                 break
             small = shorten(sc, fails) if fails else sc
-            ex.findings.append(Finding(kind=kind, key=key_for(sc, what), what=text, case={"scenario": small, "check": what}))
+            cls = aliasing_class(small, fails) if what in ("wiring", "manual-composition") else None
+            if cls == "inplace-post-reapplied":
+                key = "C17:biclique:inplace-post-reapplied"
+                text = ("in-place post-input transform is applied once per neuron group to the same connection output "
+                        "(later groups get post(post(y))): ") + text
+            elif cls:
+                key = key_for(sc, "wiring") if what == "wiring" else key_for(sc, what)
+                text = f"[{cls}: disappears with the out-of-place twin of the transform] " + text
+            else:
+                key = key_for(sc, what)
+            ex.findings.append(Finding(kind=kind, key=key, what=text, case={"scenario": small, "check": what, "aliasing": cls}))
 
 
 def explore(ctx) -> Exploration:
@@ -723,6 +881,10 @@ def explore(ctx) -> Exploration:
         if sc["kind"] == "biclique":
             ex.count("combine", sc["combine"])
             ex.count("biclique_size", f"{len(sc['conns'])}x{len(sc['neurons'])}")
+            if len(sc["neurons"]) >= 2 and any(is_inplace(n["pre"]) for n in sc["neurons"][:-1]):
+                ex.count("aliasing", "inplace-pre-on-non-last-group")
+            if len(sc["neurons"]) >= 2 and any(is_inplace(c["post"]) for c in sc["conns"]):
+                ex.count("aliasing", "inplace-post-with-2+-groups")
             for c in sc["conns"]:
                 ex.count("transform", c["post"])
             for nn_ in sc["neurons"]:
